@@ -814,7 +814,7 @@ Definition bad_extractors : extractors :=
 
 Lemma balanced_extractors_needed :
   exists story,
-    parse (mkPyparse (fun _ => true) (fun _ => Some (2, []))) (fun _ => true) bad_extractors
+    parse (mkPyparse (fun _ => true) (fun _ => Some (2, [])) (fun _ => 0)) (fun _ => true) bad_extractors
           [":: Start"; "@if x:"; ":: T(a, b)"; "hi"] = POk story /\
     ~ story_specs_roundtrip story.
 Proof.
